@@ -24,6 +24,51 @@ pub struct CloudSpec {
     /// explicit clearing through the API: bit 0 set_intensity_limits(None), bit 1 set_color_limits(None)
     #[serde(default)]
     pub clear_limits: u8,
+    /// add_point calls that must be rejected, issued before point number `.0` (or after the last point):
+    /// extreme but storable coordinates in every column and one value that does not fit
+    /// (`.1`: 0 wrong kind, 1 integer above its maximum, 2 integer below its minimum, 3 one value too few, 4 one too many) in column `.2`
+    #[serde(default)]
+    pub rejects: Vec<(u32, u8, u8)>,
+}
+
+/// A point that add_point must reject; `None` if the requested kind does not apply to this prototype.
+pub fn unfit_point(proto: &[Rec], kind: u8, col: u8) -> Option<Vec<RecordValue>> {
+    use e57ref::scene::RType;
+    if proto.is_empty() {
+        return None;
+    }
+    let j = col as usize % proto.len();
+    // storable extremes: a rejected point must leave no trace of them in bounds or limits
+    let mut vals: Vec<RecordValue> = proto
+        .iter()
+        .enumerate()
+        .map(|(k, r)| match &r.ty {
+            RType::Single { .. } => RecordValue::Single(if k % 2 == 0 { 3.0e38 } else { -3.0e38 }),
+            RType::Double { .. } => RecordValue::Double(if k % 2 == 0 { 1.0e300 } else { -1.0e300 }),
+            RType::Int { min, max } => RecordValue::Integer(if k % 2 == 0 { *max } else { *min }),
+            RType::Scaled { min, max, .. } => RecordValue::ScaledInteger(if k % 2 == 0 { *max } else { *min }),
+        })
+        .collect();
+    match kind % 5 {
+        0 => {
+            vals[j] = match vals[j] {
+                RecordValue::Single(_) => RecordValue::Double(1.0),
+                RecordValue::Double(_) => RecordValue::Integer(1),
+                RecordValue::Integer(v) => RecordValue::ScaledInteger(v),
+                RecordValue::ScaledInteger(_) => RecordValue::Single(1.0),
+            }
+        }
+        1 | 2 => {
+            let (min, max) = proto[j].ty.int_range()?;
+            let v = if kind % 5 == 1 { max.checked_add(1)? } else { min.checked_sub(1)? };
+            vals[j] = if matches!(proto[j].ty, RType::Scaled { .. }) { RecordValue::ScaledInteger(v) } else { RecordValue::Integer(v) };
+        }
+        3 => {
+            vals.pop();
+        }
+        _ => vals.push(RecordValue::Integer(0)),
+    }
+    Some(vals)
 }
 impl CloudSpec {
     pub fn points(&self) -> Vec<Vec<Val>> {
@@ -50,6 +95,9 @@ pub enum End {
     /// finalize_customized_xml with a transformer that removes the line breaks between elements
     /// (all of them, or all but the one after the XML declaration): a single-line document
     FinalizeMinified { keep_first: bool },
+    /// a first finalize_customized_xml call whose transformer refuses (must return the error), then these
+    /// late setter calls (only `Creation` / `CoordMeta`), then an ordinary finalize
+    RejectedThenFinalize { late: Vec<Op> },
 }
 
 /// Remove the line breaks outside CDATA sections.
@@ -100,10 +148,12 @@ pub struct GenOpts {
     pub limit_overrides: bool,
     /// chance of a compact all-integer prototype (3..6 records of 1..31 bits) with more than two full packets of points
     pub compact_chance: (u64, u64),
+    /// chance that a cloud's history contains add_point calls that must be rejected
+    pub reject_chance: (u64, u64),
 }
 impl Default for GenOpts {
     fn default() -> Self {
-        GenOpts { max_ops: 6, max_values: 60_000, density: 2, images: true, blobs: true, nan_ok: true, fat_chance: (1, 4), limit_overrides: false, compact_chance: (0, 1) }
+        GenOpts { max_ops: 6, max_values: 60_000, density: 2, images: true, blobs: true, nan_ok: true, fat_chance: (1, 4), limit_overrides: false, compact_chance: (0, 1), reject_chance: (0, 1) }
     }
 }
 
@@ -123,7 +173,7 @@ pub fn compact_cloud(s: &mut Src) -> CloudSpec {
     }
     let cap = gen::cap_hint(&proto).unwrap_or(1000) as u32;
     let n = (*s.pick(&[2 * cap + 1, 2 * cap + 2, 3 * cap + 1, 2 * cap - 1, 2 * cap + 1, 5 * cap + 3, 8 * cap + 1])).min(400_000);
-    CloudSpec { guid: gen::guid(s), proto, n, seed: s.u64(), nan_ok: true, meta: CloudMeta::default(), finalize: true, clear_limits: 0 }
+    CloudSpec { guid: gen::guid(s), proto, n, seed: s.u64(), nan_ok: true, meta: CloudMeta::default(), finalize: true, clear_limits: 0, rejects: vec![] }
 }
 
 pub fn cloud_spec(s: &mut Src, prefixes: &[String], o: &GenOpts) -> CloudSpec {
@@ -134,7 +184,8 @@ pub fn cloud_spec(s: &mut Src, prefixes: &[String], o: &GenOpts) -> CloudSpec {
     let proto = gen::valid_proto(s, &ProtoOpts { prefixes: prefixes.to_vec(), fat });
     let n = gen::point_count(s, &proto, o.max_values);
     let meta = gen::cloud_meta(s, o.density);
-    CloudSpec { guid: gen::guid(s), proto, n, seed: s.u64(), nan_ok: o.nan_ok, meta, finalize: true, clear_limits: 0 }
+    let rejects = if s.chance(o.reject_chance.0, o.reject_chance.1) { (0..1 + s.below(3)).map(|_| (s.below(n as u64 + 1) as u32, s.below(5) as u8, s.byte())).collect() } else { vec![] };
+    CloudSpec { guid: gen::guid(s), proto, n, seed: s.u64(), nan_ok: o.nan_ok, meta, finalize: true, clear_limits: 0, rejects }
 }
 
 /// A program in which every call is expected to succeed.
@@ -165,10 +216,15 @@ pub fn valid_program(s: &mut Src, o: &GenOpts) -> Program {
             _ => ops.push(Op::Image(gen::image_spec(s, o.density))),
         }
     }
-    let end = match s.weighted(&[12, 3, 1]) {
+    let end = match s.weighted(&[12, 3, 1, 1]) {
         0 => End::Finalize,
         1 => End::FinalizeXml(format!("<!-- {} -->", s.below(1000))),
-        _ => End::FinalizeMinified { keep_first: s.flag() },
+        2 => End::FinalizeMinified { keep_first: s.flag() },
+        _ => End::RejectedThenFinalize {
+            late: (0..s.below(3))
+                .map(|_| if s.flag() { Op::Creation(if s.chance(1, 4) { None } else { Some(gen::dt(s)) }) } else { Op::CoordMeta(if s.chance(1, 4) { None } else { Some(gen::xml_string(s)) }) })
+                .collect(),
+        },
     };
     Program { guid: gen::guid(s), ops, end }
 }
@@ -373,7 +429,24 @@ pub fn exec_cloud<T: std::io::Read + std::io::Write + std::io::Seek>(w: &mut E57
     if c.clear_limits & 2 != 0 {
         pw.set_color_limits(None);
     }
+    let unfit = |pw: &mut e57::PointCloudWriter<T>, tr: &mut Trace, at: usize| {
+        for (pos, kind, col) in &c.rejects {
+            if (*pos as usize).min(c.n as usize) == at && tr.error.is_none() {
+                if let Some(vals) = unfit_point(&c.proto, *kind, *col) {
+                    tr.current = format!("add_point (unfit, before point {at})");
+                    tr.calls += 1;
+                    if pw.add_point(vals).is_ok() {
+                        tr.error = Some((format!("add_point before point {at}"), format!("accepted a point that does not fit the prototype (kind {kind}, column {col})")));
+                    }
+                }
+            }
+        }
+    };
     for i in 0..c.n as usize {
+        unfit(&mut pw, tr, i);
+        if tr.error.is_some() {
+            return;
+        }
         let vals: Vec<RecordValue> = c.proto.iter().enumerate().map(|(j, r)| val_to_e57(&gen::value_at(&r.ty, c.seed, i, j, c.nan_ok), &r.ty)).collect();
         tr.current = format!("add_point#{i}");
         tr.calls += 1;
@@ -384,6 +457,10 @@ pub fn exec_cloud<T: std::io::Read + std::io::Write + std::io::Seek>(w: &mut E57
         if tr.probe.is_some() {
             tr.after_ok("add_point");
         }
+    }
+    unfit(&mut pw, tr, c.n as usize);
+    if tr.error.is_some() {
+        return;
     }
     if c.finalize {
         call!(tr, "pointcloud.finalize", pw.finalize());
@@ -465,6 +542,36 @@ pub fn exec(p: &Program, dev: MemDev, tr: &mut Trace) {
             tr.finalized = true;
         }
         End::Drop => {}
+        End::RejectedThenFinalize { late } => {
+            tr.current = "finalize_customized_xml (refusing transformer)".into();
+            tr.calls += 1;
+            let first = w.finalize_customized_xml(|_| Err(e57::Error::Invalid { desc: "transformer refuses".into(), source: None }));
+            if first.is_ok() {
+                tr.error = Some(("finalize_customized_xml".into(), "reported success although the transformer returned an error".into()));
+                return;
+            }
+            for op in late {
+                match op {
+                    Op::Creation(v) => w.set_creation(v.as_ref().map(dt_to_e57)),
+                    Op::CoordMeta(v) => w.set_coordinate_metadata(v.clone()),
+                    _ => {}
+                }
+            }
+            marker.mark("finalize");
+            tr.finalize_entered = true;
+            tr.current = "finalize".into();
+            tr.calls += 1;
+            match w.finalize() {
+                Ok(()) => {
+                    tr.after_ok("finalize");
+                    tr.finalized = true;
+                }
+                Err(e) => {
+                    tr.error = Some(("finalize".to_string(), e.to_string()));
+                    return;
+                }
+            }
+        }
         End::FinalizeMinified { keep_first } => {
             marker.mark("finalize");
             tr.finalize_entered = true;
@@ -581,6 +688,15 @@ pub fn expected_scene(p: &Program) -> Scene {
                     meta.guid = Some(c.guid.clone());
                     s.clouds.push(Cloud { meta, proto: c.proto.clone(), points: c.points() });
                 }
+            }
+        }
+    }
+    if let End::RejectedThenFinalize { late } = &p.end {
+        for op in late {
+            match op {
+                Op::Creation(v) => s.creation = v.clone(),
+                Op::CoordMeta(v) => s.coord_meta = v.clone(),
+                _ => {}
             }
         }
     }
@@ -753,7 +869,7 @@ pub fn sweep_programs(thorough: bool) -> Vec<Program> {
         }
         for (k, (proto, n)) in variants.into_iter().enumerate() {
             let cloud = |guid: &str, n: u32, seed: u64| {
-                Op::Cloud(CloudSpec { guid: guid.to_string(), proto: proto.clone(), n, seed, nan_ok: true, meta: CloudMeta::default(), finalize: true, clear_limits: 0 })
+                Op::Cloud(CloudSpec { guid: guid.to_string(), proto: proto.clone(), n, seed, nan_ok: true, meta: CloudMeta::default(), finalize: true, clear_limits: 0, rejects: vec![] })
             };
             out.push(Program {
                 guid: format!("{{sweep-{res}-{k}}}"),
